@@ -79,6 +79,8 @@ class Engine:
         self.solver_time = 0.0
         self.model = None
         self.max_decisions = max_decisions
+        self.vc_timeout_ms = 600000
+        self.donate = None
         self.check_sites = check_sites
         self._fresh = 0
         self.pre_assumes = []      # env assumptions made before the first decision
@@ -181,14 +183,19 @@ class Engine:
         return out
 
     def vc(self, neg):
-        """Is PC /\\ neg satisfiable?  Returns a model or None."""
-        self.s.push()
-        try:
-            self.s.add(neg)
-            r = self._check()
-            return self.s.model() if r == Z.sat else None
-        finally:
-            self.s.pop()
+        """Is PC /\\ neg satisfiable?  Returns a model or None.  Uses a fresh solver: the
+        incremental core is an order of magnitude slower on these bit-vector VCs."""
+        t = time.perf_counter()
+        self.checks += 1
+        s = Z.Solver()
+        s.set("timeout", self.vc_timeout_ms)
+        s.add(*self.pc())
+        s.add(neg)
+        r = s.check()
+        self.solver_time += time.perf_counter() - t
+        if r == Z.unknown:
+            raise Inconclusive("z3 answered unknown on a verification condition: %s" % s.reason_unknown())
+        return s.model() if r == Z.sat else None
 
     # -- exploration --------------------------------------------------------------------
     def _backtrack(self):
@@ -230,6 +237,8 @@ class Engine:
                     raise NonDeterminism("run ended after %d decisions, %d recorded" % (self.pos, len(self.frames)))
                 self.paths += 1
                 on_path(self, res)
+            if self.donate is not None:
+                self.donate(self)
             if not self._backtrack():
                 return True, cuts
             if max_paths and self.paths >= max_paths:
@@ -299,64 +308,118 @@ class Harness:
         pass
 
 
-def _worker(prefix):
-    h = _JOB["h"]
+def _donor(jobs, pending, idle):
+    def donate(eng):
+        # give away the other branch of the shallowest open decision while others are idle
+        n = idle.value
+        if n <= 0:
+            return
+        for idx in range(eng.base, len(eng.frames)):
+            if n <= 0:
+                break
+            fr = eng.frames[idx]
+            if fr.exhausted:
+                continue
+            prefix = [f.val for f in eng.frames[:idx]] + [not fr.val]
+            fr.exhausted = True
+            with pending.get_lock():
+                pending.value += 1
+            jobs.put(prefix)
+            n -= 1
+    return donate
+
+
+def _wloop(h, jobs, results, pending, idle, nproc):
     h.reset()
-    eng = h.mk_engine()
-    eng.forced = list(prefix)
-    eng.base = len(prefix)
-    set_engine(eng)
-    t0 = time.perf_counter()
-    err = None
+    agg = dict(paths=0, checks=0, decisions=0, solver_time=0.0, jobs=0)
+    errs = []
     try:
-        eng.run_all(h.run, h.on_path)
-    except Inconclusive as e:
-        err = "%s: %s" % (type(e).__name__, e)
-    return dict(paths=eng.paths, checks=eng.checks, decisions=eng.decisions,
-                solver_time=eng.solver_time, wall=time.perf_counter() - t0,
-                err=err, data=h.collect())
+        while True:
+            with idle.get_lock():
+                idle.value += 1
+            job = jobs.get()
+            with idle.get_lock():
+                idle.value -= 1
+            if job is None:
+                break
+            eng = h.mk_engine()
+            eng.forced = list(job)
+            eng.base = len(job)
+            eng.donate = _donor(jobs, pending, idle)
+            set_engine(eng)
+            try:
+                eng.run_all(h.run, h.on_path)
+            except Inconclusive as e:
+                errs.append("%s: %s" % (type(e).__name__, e))
+            except Abort:
+                errs.append("Abort: infeasible path condition in a donated job")
+            agg["jobs"] += 1
+            for k in ("paths", "checks", "decisions", "solver_time"):
+                agg[k] += getattr(eng, k)
+            with pending.get_lock():
+                pending.value -= 1
+                last = pending.value == 0
+            if last:
+                for _ in range(nproc):
+                    jobs.put(None)
+    except BaseException as e:  # noqa: BLE001
+        import traceback
+        errs.append("worker crashed: %r %s" % (e, traceback.format_exc()[-600:]))
+        for _ in range(nproc):
+            jobs.put(None)
+    results.put(dict(agg=agg, errs=errs, data=h.collect()))
 
 
-def explore(h, nproc=None, split_depth=None, min_jobs=None):
-    """Explore all paths of h.run, splitting the decision tree over forked workers.
+def explore(h, nproc=None, **_ignored):
+    """Explore all paths of h.run with `nproc` forked workers that share work by donating
+    the open branch nearest to the root whenever another worker is idle.
     Returns a stats dict; the exploration was exhaustive iff stats['errors'] is empty."""
     nproc = nproc or int(os.environ.get("VF_NPROC", "0")) or min(16, os.cpu_count() or 1)
     stats = dict(paths=0, checks=0, decisions=0, solver_time=0.0, jobs=0, nproc=nproc, errors=[])
     t0 = time.perf_counter()
-    depth = None if nproc <= 1 else (split_depth or 5)
-    min_jobs = min_jobs or 4 * nproc
-    while True:
-        h.reset()
+    h.reset()
+    if nproc <= 1:
         eng = h.mk_engine()
-        eng.cutoff = depth
         set_engine(eng)
-        cuts = []
         try:
-            _, cuts = eng.run_all(h.run, h.on_path)
+            eng.run_all(h.run, h.on_path)
         except Inconclusive as e:
             stats["errors"].append("%s: %s" % (type(e).__name__, e))
-            cuts = []
-        if depth is None or len(cuts) >= min_jobs or not cuts or depth >= 16:
-            break
-        depth += 2          # too few jobs: throw the shallow exploration away, split deeper
-    snap = h.collect()
-    for k in ("paths", "checks", "decisions", "solver_time"):
-        stats[k] += getattr(eng, k)
-    stats["split_depth"] = depth
-    stats["jobs"] = len(cuts)
-    results = [snap]
-    if cuts:
-        _JOB["h"] = h
-        ctx = mp.get_context("fork")
-        with ctx.Pool(min(nproc, len(cuts))) as pool:
-            for r in pool.imap_unordered(_worker, cuts, chunksize=1):
-                for k in ("paths", "checks", "decisions", "solver_time"):
-                    stats[k] += r[k]
-                if r["err"]:
-                    stats["errors"].append(r["err"])
-                results.append(r["data"])
+        for k in ("paths", "checks", "decisions", "solver_time"):
+            stats[k] += getattr(eng, k)
+        stats["jobs"] = 1
+        stats["wall"] = time.perf_counter() - t0
+        return stats
+    ctx = mp.get_context("fork")
+    jobs, results = ctx.Queue(), ctx.Queue()
+    pending, idle = ctx.Value("i", 1), ctx.Value("i", 0)
+    jobs.put([])
+    procs = [ctx.Process(target=_wloop, args=(h, jobs, results, pending, idle, nproc), daemon=True) for _ in range(nproc)]
+    for p in procs:
+        p.start()
+    got = []
+    import queue as _q
+    while len(got) < nproc:
+        try:
+            got.append(results.get(timeout=5))
+        except _q.Empty:
+            dead = [p for p in procs if not p.is_alive() and p.exitcode not in (0, None)]
+            if dead:
+                stats["errors"].append("worker process died with exit code %s" % dead[0].exitcode)
+                for _ in range(nproc):
+                    jobs.put(None)
+                break
+    for p in procs:
+        p.join(timeout=10)
+        if p.is_alive():
+            p.terminate()
     h.reset()
-    for r in results:
-        h.merge(r)
+    for r in got:
+        for k in ("paths", "checks", "decisions", "solver_time", "jobs"):
+            stats[k] += r["agg"][k]
+        stats["errors"].extend(r["errs"])
+        h.merge(r["data"])
+    if len(got) < nproc:
+        stats["errors"].append("only %d of %d workers reported" % (len(got), nproc))
     stats["wall"] = time.perf_counter() - t0
     return stats
